@@ -69,9 +69,14 @@ func (s *c20State) exec(line string) string {
 			s.priv = newC20Priv(s)
 		}
 		return "ok"
-	case "ty":
+	case "ty", "xo":
 		s.hdr = append(s.hdr, line)
 		return "ok"
+	case "rtx":
+		if s.ante == nil {
+			return "bad-op"
+		}
+		return s.execRtx(line, f)
 	case "tx":
 		if s.ante == nil {
 			return "bad-op"
@@ -278,7 +283,7 @@ func c20min(a, b int) int {
 var (
 	c20Wrappers = []string{"E", "G", "P"}
 	c20Benign   = []string{"S", "D", "L", "C", "Q"}
-	c20Disabled = []string{"X", "U", "V1", "V2", "V3"}
+	c20Disabled = []string{"X", "U", "M", "V1", "V2", "V3"}
 )
 
 func c20pick(r *Rng, xs []string) string { return xs[r.Intn(len(xs))] }
@@ -427,12 +432,15 @@ func TestC20(t *testing.T) {
 		for _, l := range s.ante.headerLines() {
 			run(l)
 		}
+		for _, l := range c20XoLines() {
+			run(l)
+		}
 	}
 	startAnte()
 	run("wrappers")
 	// exhaustive chains
 	chainDepth := r.N(5, 7)
-	leafs := []*c20Node{leaf("X"), leaf("U"), leaf("V1"), leaf("V2"), leaf("V3"), leaf("S"),
+	leafs := []*c20Node{leaf("X"), leaf("U"), leaf("M"), leaf("V1"), leaf("V2"), leaf("V3"), leaf("S"),
 		grantOf("U"), grantOf("V1"), grantOf("X"), grantOf("S"), wrap("E"), {ty: "E", auth: "-", bad: true}}
 	for d := 0; d <= chainDepth; d++ {
 		startAnte()
@@ -478,6 +486,9 @@ func TestC20(t *testing.T) {
 			run("path " + strings.Join(path, ",") + strings.TrimPrefix(line, "tx"))
 		}
 	}
+
+	// ---- part 1b: every route of NewAnteHandler (c20_routes_test.go)
+	c20RouteTraces(s, run, startAnte)
 
 	// ---- part 2: authority / owner guards
 	nTraces := r.N(24, 300)
